@@ -53,6 +53,9 @@ def gen_case(rng, spec):
     if R == "Q" and "recursive" in an["classes"]:
         R = rng.choice(["Float", "Log", "MaxPlus"])
     case = {"g": {k: g[k] for k in ("S", "V", "rules")}, "R": R}
+    if R in ("Float", "Real") and rng.random() < 0.15:
+        case["g"]["rules"] = [[(-w if rng.random() < 0.35 else w), h, b] for w, h, b in case["g"]["rules"]]
+        case["signed"] = True
     if R == "Log" and rng.random() < 0.3:
         # tiny log-weights (products around exp(-40)): exact rationals, still convergent
         from fractions import Fraction as Fr
